@@ -49,6 +49,38 @@ M = [
  ('N6 Factored ThompsonSamplingPolicy: posterior draw subtracts instead of adds the noise for even entries', 'src/Factored/Bandit/Policies/ThompsonSamplingPolicy.cpp',
   """                    val = basis.values[y] + dist(rnd) * std::sqrt(m2[y]/(counts[y] * (counts[y] - 1)));""",
   """                    val = basis.values[y] + (y % 2 ? 1.0 : -3.0) * dist(rnd) * std::sqrt(m2[y]/(counts[y] * (counts[y] - 1)));"""),
+ # ---- round 3 (header mutations rebuild the whole sanitized library)
+ ('P1 QGreedyPolicyWrapper::getPolicy pass 2 uses checkEqualSmall (the seeded change missed in round 2)', 'include/AIToolbox/Bandit/Policies/Utils/QGreedyPolicyWrapper.hpp',
+  """            if ( checkEqualGeneral(q_[aa], max) )
+                p[aa] = 1.0 / count;""", """            if ( checkEqualSmall(q_[aa], max) )
+                p[aa] = 1.0 / count;"""),
+ ('P2 Core.hpp checkEqualGeneral compares magnitudes (|a|-|b|) in the relative test: x and -x tie', 'include/AIToolbox/Utils/Core.hpp',
+  'return ( std::fabs(a - b) <= std::min(std::fabs(a), std::fabs(b)) * equalToleranceGeneral );',
+  'return ( std::fabs(std::fabs(a) - std::fabs(b)) <= std::min(std::fabs(a), std::fabs(b)) * equalToleranceGeneral );'),
+ ('P3 QSoftmaxPolicyWrapper::getPolicy delegates only for temperature_ == 0.0 (the other two members keep checkEqualSmall)', 'include/AIToolbox/Bandit/Policies/Utils/QSoftmaxPolicyWrapper.hpp',
+  """        if ( checkEqualSmall(temperature_, 0.0) ) {
+            auto wrap = QGreedyPolicyWrapper(q_, buffer_, rand_);
+            return wrap.getPolicy(p);""","""        if ( temperature_ == 0.0 ) {
+            auto wrap = QGreedyPolicyWrapper(q_, buffer_, rand_);
+            return wrap.getPolicy(p);"""),
+ ('P4 WoLFPolicy::stepUpdateP own greedy scan uses checkEqualSmall', 'src/MDP/Policies/WoLFPolicy.cpp',
+  'if ( checkEqualGeneral(qsa, bestQValue) ) {', 'if ( checkEqualSmall(qsa, bestQValue) ) {'),
+ ('P5 MDP::Policy(const PolicyInterface::Base&) copies all but the last action', 'src/MDP/Policies/Policy.cpp',
+  """            for ( size_t a = 0; a < A; ++a )
+                policy_(s, a) = p.getActionProbability(s, a);""","""            for ( size_t a = 0; a + 1 < A; ++a )
+                policy_(s, a) = p.getActionProbability(s, a);"""),
+ ('P7 Factored::Bandit::EpsilonPolicy random probability 1/#agents instead of 1/|joint space|', 'src/Factored/Bandit/Policies/EpsilonPolicy.cpp',
+  'return 1.0 / factorSpace(A);', 'return 1.0 / A.size();'),
+ ('P8 T3CPolicy::getPolicy normalises by the number of trials plus one', 'src/Bandit/Policies/T3CPolicy.cpp',
+  """        retval /= retval.sum();
+        return retval;
+    }
+
+    const Experience & T3CPolicy""","""        retval /= (retval.sum() + 1.0);
+        return retval;
+    }
+
+    const Experience & T3CPolicy"""),
 ]
 sel = sys.argv[1:]
 for name, rel, old, new in M:
